@@ -22,6 +22,7 @@ SPEC = {
                        ("weights with 26 significant bits: G(4) x B3, G(5) x B2", [["--n", 4, "--alpha", "B3"], ["--n", 5, "--alpha", "B2"]]),
                        ("reversed / alternating edge orientation: G(4) x A3, G(5) x A2", [["--n", 4, "--alpha", "A3", "--orient", 1], ["--n", 5, "--alpha", "A2", "--orient", 1], ["--n", 5, "--alpha", "A2", "--orient", 2]]),
                        ("blob grammar K=3,T=2 x patterns M2, M3", [["--grammar", "blobs:3:2", "--alpha", "M2"], ["--grammar", "blobs:3:2", "--alpha", "M3"]]),
+                       ("edge insertion order reversed / interleaved: G(4) x A3, G(5) x A2", [["--n", 4, "--alpha", "A3", "--eorder", o] for o in (1, 2)] + [["--n", 5, "--alpha", "A2", "--eorder", o] for o in (1, 2)]),
                        ("tie-heavy families x U", [["--families", FAMS_TIES, "--alpha", "U"]]),
                        ("tie-heavy families with 33..64 and more than 64 vertices x U, M3", [["--families", FAMS_BIG, "--alpha", a] for a in ("U", "M3")]),
                        ("symmetric families under 60 renumberings x U", [["--families", FAMS_SYM + ",cube:4,grid:4:4", "--relabel", 60, "--alpha", "U"]])],
@@ -33,7 +34,7 @@ SPEC = {
     "C13": dict(comp="fvs",
                 rule="every labelled graph of G(n) (no weights involved) and named families; oracle = outputs are distinct vertices, graph minus output is acyclic "
                      "(union-find), nothing emitted for forests. distinct_nontrivial = graphs containing a cycle",
-                quick=[("G(0..7)", [["--n", n] for n in range(0, 8)]), ("G(6), G(7) reversed edge orientation", [["--n", 6, "--orient", 1], ["--n", 7, "--orient", 1]]), ("families", [["--families", FAMS_TIES + ",grid:6:6,cube:5,K:9,wheel:12," + FAMS_BIG]]),
+                quick=[("G(0..7)", [["--n", n] for n in range(0, 8)]), ("G(6), G(7) reversed edge orientation", [["--n", 6, "--orient", 1], ["--n", 7, "--orient", 1]]), ("G(6), G(7) reversed / interleaved edge insertion order", [["--n", 6, "--eorder", 1], ["--n", 7, "--eorder", 2]]), ("families", [["--families", FAMS_TIES + ",grid:6:6,cube:5,K:9,wheel:12," + FAMS_BIG]]),
                        ("blob grammar K=3,T=3 (hubs with pendant pieces, up to 30 vertices)", [["--grammar", "blobs:3:3"]]),
                        ("every graph on 9 vertices with at most 6 edges", [["--n", 9, "--sparse", 6]]),
                        ("symmetric families under 500 renumberings", [["--families", FAMS_SYM + ",cube:4,grid:4:4,K:7", "--relabel", 500]])],
@@ -49,6 +50,7 @@ SPEC = {
                        ("G(5) x U", [["--n", 5, "--alpha", "U"]]), ("G(5) x A3", [["--n", 5, "--alpha", "A3"]]),
                        ("reversed / alternating edge orientation: G(4) x A3, G(5) x A2", [["--n", 4, "--alpha", "A3", "--orient", 1], ["--n", 5, "--alpha", "A2", "--orient", 1], ["--n", 5, "--alpha", "A2", "--orient", 2]]),
                        ("blob grammar K=3,T=2 x patterns M2, M3", [["--grammar", "blobs:3:2", "--alpha", "M2"], ["--grammar", "blobs:3:2", "--alpha", "M3"]]),
+                       ("edge insertion order reversed / interleaved: G(4) x A3, G(5) x A2", [["--n", 4, "--alpha", "A3", "--eorder", o] for o in (1, 2)] + [["--n", 5, "--alpha", "A2", "--eorder", o] for o in (1, 2)]),
                        ("tie-heavy families x U", [["--families", "grid:3:3,grid:3:4,cube:3,Kb:3:3,petersen,wheel:6,prism:5,torus:3:3,K:6", "--alpha", "U"]]),
                        ("symmetric families (antiprisms, prisms, Moebius ladders, ...) under 400 renumberings x U and under 100 renumberings x M2",
                         [["--families", FAMS_SYM, "--relabel", 400, "--alpha", "U"], ["--families", FAMS_SYM, "--relabel", 100, "--alpha", "M2"]])],
